@@ -37,6 +37,8 @@ def render_slots(ci):
         return None, run.error
     ex = run.ex
     carriers = ex.tags.sub(r.cls("terms.Term")) | ex.tags.sub(r.cls("queries.Selectable"))
+    carriers = carriers - ex.tags.sub(r.cls("terms.Index")) - ex.tags.sub(r.cls("terms.PseudoColumn")) - \
+        ex.tags.sub(r.cls("terms.Parameter"))
     out = set()
     for o in run.outcomes:
         if o.status == "raise":
